@@ -42,6 +42,39 @@ fn main() {
                 }
             }
         }
+        // call histories: every ordered pair (thorough: every triple of the history-only inputs as well) of inputs run
+        // one after the other on the persistent workers of one fresh pool; the digest of the last call must be the
+        // digest of that input run alone (a pure function of the input does not depend on what was computed before)
+        let inputs = pipeline::pipeline_inputs();
+        let all: Vec<usize> = (0..inputs.len()).collect();
+        let hist_only: Vec<usize> = (0..inputs.len()).filter(|&i| !inputs[i].explore).collect();
+        let mut seqs: Vec<Vec<usize>> = vec![];
+        for &a in &all {
+            for &b in &all {
+                seqs.push(vec![a, b]);
+            }
+        }
+        if args[2] == "thorough" {
+            for &a in &hist_only {
+                for &b in &hist_only {
+                    for &c in &hist_only {
+                        seqs.push(vec![a, b, c]);
+                    }
+                }
+            }
+        }
+        let nseq = seqs.len();
+        for threads in [1usize, 2] {
+            for sq in &seqs {
+                let pool = rayon::ThreadPoolBuilder::new().num_threads(threads).build().expect("pool");
+                let mut last = 0u64;
+                for &i in sq {
+                    last = pool.install(|| pipeline::run_pipeline(&inputs[i])).total();
+                }
+                lines.push(format!("hist\t{}\t{}\t{:016x}", sq.iter().map(|i| i.to_string()).collect::<Vec<_>>().join(">"), threads, last));
+            }
+        }
+        println!("C09REAL: {} call histories x 2 pool sizes", nseq);
         let path = std::env::var("VERIF_C09_REAL_OUT").unwrap_or_else(|_| "/tmp/c09_real.digest".to_string());
         std::fs::write(&path, lines.join("\n") + "\n").expect("write real-rayon digests");
         println!("C09REAL: {} runs on real rayon pools -> {}", lines.len(), path);
@@ -65,10 +98,55 @@ fn main() {
 
 /// Run a per-state evaluation over the E1 families.
 pub fn run_e1<F: Fn(&State) -> Eval + Sync>(run: &mut Run, dims: &[usize], periodic: &[bool], max_n: usize, f: F) {
+    run_e1_perm(run, dims, periodic, max_n, false, f)
+}
+
+/// All non-identity orders of the generators of a state (the input slice order is part of the input: indices decide
+/// face ownership, `left`/`right`, connectivity order). The alphabets list their points in lexicographic order, so
+/// without this every enumerated state would have its generators sorted by position.
+pub fn permuted_copies(st: &State) -> Vec<State> {
+    let n = st.n();
+    let mut out = vec![];
+    let mut idx: Vec<usize> = (0..n).collect();
+    // Heap's algorithm, skipping the identity
+    fn rec(k: usize, idx: &mut Vec<usize>, st: &State, out: &mut Vec<State>) {
+        if k <= 1 {
+            if idx.iter().enumerate().any(|(i, &j)| i != j) {
+                let mut c = st.clone();
+                c.gens = idx.iter().map(|&j| st.gens[j]).collect();
+                c.id = format!("{}|order={}", st.id, idx.iter().map(|j| j.to_string()).collect::<Vec<_>>().join(""));
+                out.push(c);
+            }
+            return;
+        }
+        for i in 0..k {
+            rec(k - 1, idx, st, out);
+            if k % 2 == 0 {
+                idx.swap(i, k - 1);
+            } else {
+                idx.swap(0, k - 1);
+            }
+        }
+    }
+    rec(n, &mut idx, st, &mut out);
+    out
+}
+
+pub fn run_e1_perm<F: Fn(&State) -> Eval + Sync>(run: &mut Run, dims: &[usize], periodic: &[bool], max_n: usize, perms: bool, f: F) {
     let fams = e1_families(run.thorough(), dims, periodic);
+    let pmax = if run.thorough() { 4 } else { 3 };
+    if perms {
+        run.bounds.push(format!("every order of the generators in the input slice for states with 2..{} generators", pmax));
+    }
     for fam in fams {
-        let states: Vec<State> = fam.states().into_iter().filter(|s| s.n() <= max_n).collect();
-        run.family(fam.describe(), states.len() as u64);
+        let mut states: Vec<State> = fam.states().into_iter().filter(|s| s.n() <= max_n).collect();
+        let mut desc = fam.describe();
+        if perms {
+            let extra: Vec<State> = states.iter().filter(|s| s.n() >= 2 && s.n() <= pmax).flat_map(permuted_copies).collect();
+            desc = format!("{} + {} reordered copies (all n! input orders, n <= {})", desc, extra.len(), pmax);
+            states.extend(extra);
+        }
+        run.family(desc, states.len() as u64);
         run.explore(&states, &f, |s| s.to_json());
     }
     let mut med = medium_families(run.thorough(), dims, periodic);
